@@ -20,7 +20,8 @@ KEEP = [r"EvalContext::", r"Expr::eval", r"StmtIterator::next_with_context", r"D
 
 
 def rep():
-    return dri.Rep({"family": "control"}, B.control_battery(), B.control_judge)
+    from .refmodel import with_reference
+    return with_reference(dri.Rep({"family": "control"}, B.control_battery(), B.control_judge), ("control", "expressions"))
 
 
 def explore_arms(O, keep=KEEP, bound_rows=False):
